@@ -156,7 +156,9 @@ def k_call(spec):
     with Env(spec):
         for prev in spec.get("before", []):
             try:
-                f(*([denorm(prev)] if not isinstance(prev, list) else [denorm(a) for a in prev]))  # a list = the argument list
+                r0 = f(*([denorm(prev)] if not isinstance(prev, list) else [denorm(a) for a in prev]))  # a list = the argument list
+                if spec.get("caller_clears_result") and hasattr(r0, "clear"):
+                    r0.clear()  # what the caller does with the value it was handed is its own business
             except Exception:  # noqa: BLE001
                 pass
         try:
